@@ -74,6 +74,10 @@ def handle : List String → String
       | "open", some a => some (.openFile a)
       | "access2", some a => (parseArg a2).map (LOp.access2 a)
       | "mkdirtemp", some a => (fromHex extra).map (LOp.mkdirTemp a)
+      | "mkdirtempp", some a =>
+        match fromHex a2, fromHex extra with
+        | some pat, some rnd => some (LOp.mkdirTempP a pat rnd)
+        | _, _ => none
       | "walk", some a => (parseList extra).map (fun rels => LOp.walk a (rels.map comps))
       | _, _ => none
     match fromHex base, parseList handed, op with
